@@ -10,7 +10,7 @@ PROOF_FILES = [f for f in ['proofs/TraceProofs.v', 'proofs/SortLib.v', 'proofs/C
 
 
 def main(tier, seed):
-    return icheck.run(PROP, tier, seed, genchart.Profile(use_objects=True, p_orth=0.35, p_entry_code=0.7, p_action=0.8, p_contract=0.15, alt=[(0.3, genchart.parallel_profile(p_entry_code=0.7, p_action=0.8)), (0.3, genchart.nested_parallel_chart)]), ifam.ScenarioSpec(p_queue=0.4), icheck.interest_c03, PROOF_FILES, assumptions=['code fragments are observed through the recording evaluator'])
+    return icheck.run(PROP, tier, seed, genchart.Profile(use_objects=True, p_orth=0.35, p_entry_code=0.7, p_action=0.8, p_contract=0.15, alt=[(0.3, genchart.parallel_profile(p_entry_code=0.7, p_action=0.8)), (0.3, genchart.nested_parallel_chart)]), ifam.ScenarioSpec(p_queue=0.4, p_fail_bit=0.15, p_continue=0.6), icheck.interest_c03, PROOF_FILES, assumptions=['code fragments are observed through the recording evaluator'])
 
 
 replay = icheck.replay
